@@ -653,13 +653,35 @@ where
         self.storage.create(obj)
     }
     fn update<T: ObjectWrite>(&mut self, old: PlainRef, obj: T) -> Result<RcRef<T>> {
-        self.storage.update(old, obj)
+        let r = self.storage.update(old, obj)?;
+        self.refresh_root();
+        Ok(r)
     }
     fn promise<T: Object>(&mut self) -> PromisedRef<T> {
         self.storage.promise()
     }
     fn fulfill<T: ObjectWrite>(&mut self, promise: PromisedRef<T>, obj: T) -> Result<RcRef<T>> {
-        self.storage.fulfill(promise, obj)
+        let r = self.storage.fulfill(promise, obj)?;
+        self.refresh_root();
+        Ok(r)
+    }
+}
+impl<B, OC, SC, L> File<B, OC, SC, L>
+where
+    B: Backend,
+    OC: Cache<Result<AnySync, Arc<PdfError>>>,
+    SC: Cache<Result<Arc<[u8]>, Arc<PdfError>>>,
+    L: Log,
+{
+    /// The catalog (with the page tree root and whatever else it loads eagerly) is held by the document
+    /// from the time it was opened: after a write it is loaded again, so that num_pages(), get_page()
+    /// and get_root() answer from the objects as they are now. If it no longer loads, the old one stays.
+    fn refresh_root(&mut self) {
+        let root_ref = self.trailer.root.get_ref();
+        let root = StorageResolver::new(&self.storage).get(root_ref);
+        if let Ok(root) = root {
+            self.trailer.root = root;
+        }
     }
 }
 
